@@ -33,6 +33,15 @@ CHECKS = [
   "note": "Trusts the long-double DFT reference; budget 64*eps(dtype)*N; the single boundary bin is open when the exact shift is "
           "within 1e-9 of, but not equal to, a whole bin.",
   "technique": "bounded exhaustive enumeration of configurations on the real code, complete-basis operator identification against a long-double DFT reference model"},
+ {"property_id": "C05",
+  "text": "Bounded exhaustive exploration of coherent dedispersion: 9 DMs (both signs, 1e-4..1e3) x 4 bands x nchan 1..3 x 3 "
+          "alignments x 7 reference placements x N in {8,12,15,16,32} x trailing dims x complex64/128: chirp arrays against "
+          "exp(-2 pi i frac(phi)) with phi in exact Fractions reduced mod 1; the dedispersed complete basis against long-double "
+          "IDFT(DFT(x)H) on the exact valid window; supplied chirp == internal; start_time; plus wave-packet group-delay sign "
+          "and DM/-DM restoration on band-limited compact inputs.",
+  "note": "Trusts Fractions, the long-double DFT and the stated constant; budget 8 eps32 + float64 cancellation term; Nyquist-bin "
+          "frequency convention and band-edge delays within 1e-9 of an integer are left open.",
+  "technique": "bounded exhaustive enumeration of configurations on the real code, complete-basis operator identification against an exact-phase long-double reference model"},
  {"property_id": "C06",
   "text": "Bounded exhaustive exploration: time_delay/sample_delay on 10 DMs (3 units, both signs) x all ordered pairs and triples "
           "of 7 frequencies (Hz/MHz/GHz, scalar and array) x 4 rates against the exact rational f^-2 law, antisymmetry and chain "
